@@ -180,7 +180,7 @@ OnCall(e) ==
   /\ qclosed' = [q \in Queues |-> IF e.op = "QClose" /\ e.qi = q /\ qclosed[q] = "open" THEN "closing" ELSE qclosed[q]]
   /\ pcancel' = (pcancel \/ (e.op = "CancelCtx" /\ hdr.ctx))
   /\ U(<<ref, started>>)
-  /\ overlap' = (overlap \/ (e.op \in StateChanging /\ \E c \in Clients : pend[c].op \in StateChanging))
+  /\ overlap' = (overlap \/ (e.op \in StateChanging \cup {"Bind"} /\ \E c \in Clients : pend[c].op \in StateChanging \cup {"Bind"}))
   /\ U(<<addRet, enters, exits, enterAt, exitAt, deqd, closeNil, waitRet, lastRes, rank, consOf>>)
   /\ U(miscVars)
 
